@@ -1,4 +1,5 @@
 """C04 - batches are flushed only when nothing else can run (maximal batching)."""
+import itertools
 import random
 
 from .. import gen, lang, ref, tl
@@ -65,12 +66,130 @@ def plan(tier, seed, build, scale):
         a += per
     for j, s in enumerate(SHAPES_QUICK if tier == "quick" else SHAPES_THOROUGH):
         units.append({"cases": [j, j + 1], "mode": "shape", "shape": list(s)})
+    units.append({"cases": [0, 1], "mode": "fanout"})
     return units
+
+
+def run_fanout(unit, progress):
+    """Requests issued THROUGH the library's own helpers travel together too: one yield of async_call.asynq(fn, i)
+    for every kind of asynq callable (function, bound method, class- and staticmethod, pure function, a
+    make_async_decorator wrapper, deduplicated / cached functions), and AsyncEventHook.trigger over such handlers:
+    one flush carrying every request."""
+    import asynq
+    from asynq import asynq as A, async_call, make_async_decorator
+    from asynq.tools import AsyncEventHook, alru_cache, deduplicate
+    from .. import harness
+
+    res = tl.new_result()
+    c = res["counters"]
+    n = 0
+    for kind, width, via in itertools.product(("function", "bound method", "classmethod", "staticmethod", "pure function", "make_async_decorator wrapper", "deduplicate", "alru_cache", "mixed"), (2, 3, 7), ("async_call", "AsyncEventHook.trigger", "AsyncEventHook.safe_trigger")):
+        progress(n)
+        n += 1
+        asynq.scheduler.reset()
+        rt = harness.HarnessRT({"nodes": [], "kinds": 1})
+        ctr = itertools.count()
+
+        def fetch(i):
+            return harness.HItem(rt, 0, "fo%d" % i, ("fo", i, next(ctr)))
+
+        @A()
+        def fn(i):
+            return (yield fetch(i))
+
+        @A(pure=True)
+        def pure_fn(i):
+            return (yield fetch(i))
+
+        class K(object):
+            @A()
+            def m(self, i):
+                return (yield fetch(i))
+
+            @A()
+            @classmethod
+            def cm(cls, i):
+                return (yield fetch(i))
+
+            @A()
+            @staticmethod
+            def sm(i):
+                return (yield fetch(i))
+
+        @A()
+        def wrapped_inner(i):
+            return (yield fetch(i))
+
+        def wrapper_fn(*args, **kwargs):
+            return wrapped_inner.asynq(*args, **kwargs)
+
+        wrapped = make_async_decorator(wrapped_inner, wrapper_fn, "passing-through")
+
+        @deduplicate()
+        @A()
+        def dd(i):
+            return (yield fetch(i))
+
+        @alru_cache()
+        @A()
+        def lru(i):
+            return (yield fetch(i))
+
+        pool = {"function": fn, "bound method": K().m, "classmethod": K.cm, "staticmethod": K.sm, "pure function": pure_fn, "make_async_decorator wrapper": wrapped, "deduplicate": dd, "alru_cache": lru}
+        if kind == "mixed":
+            fns = [f for f in pool.values() if f is not None]
+            fns = [fns[j % len(fns)] for j in range(width)]
+        else:
+            if pool[kind] is None:
+                continue
+            fns = [pool[kind]] * width
+
+        if via == "async_call":
+            @A()
+            def root():
+                return (yield [async_call.asynq(f, j) for j, f in enumerate(fns)])
+        else:
+            hook = AsyncEventHook()
+            for j, f in enumerate(fns):
+                if kind != "mixed" and j > 0:
+                    break
+                hook.subscribe(f)
+            if kind != "mixed":
+                # one handler kind, several hooks triggered in one yield
+                @A()
+                def root():
+                    return (yield [getattr(hook, via.split(".")[1]).asynq(j) for j in range(width)])
+            else:
+                @A()
+                def root():
+                    yield getattr(hook, via.split(".")[1]).asynq(0)
+                    return None
+
+        try:
+            out = ("val", root())
+        except BaseException as e:
+            out = ("exc", lang.exc_desc(e))
+        flushes = [ev for ev in rt.log if ev[0] == "flush_body"]
+        res["evaluations"] += 1
+        c["fan_outs_through_library_helpers"] = c.get("fan_outs_through_library_helpers", 0) + 1
+        res["nontrivial"].append(hash(("fanout", kind, width, via)) & 0xFFFFFFFFFFFF)
+        if (out[0] != "val" or len(flushes) != 1) and len(res["violations"]) < 6:
+            res["violations"].append(
+                {
+                    "oracle": "flushes-differ-from-maximal-batching-rounds",
+                    "mechanism": "flushes-differ-from-maximal-batching-rounds/fan-out-through-" + via.split(".")[0],
+                    "detail": {"callables": kind, "requests": width, "through": via, "flushes": [list(ev[2]) for ev in flushes][:6], "expected_flushes": 1, "outcome": repr(out)[:160]},
+                    "case": {"mode": "fanout", "cases": [0, 1]},
+                }
+            )
+    return res
 
 
 def run_unit(unit, progress):
     if unit["mode"] == "shape":
         return run_shape(unit, progress)
+    if unit["mode"] == "fanout":
+        return run_fanout(unit, progress)
     res = tl.new_result()
     res["sets"] = {"flushseq": set()}
     c = res["counters"]
